@@ -30,6 +30,8 @@ META["explanation"] += " " + "SB-value additionally: the five comparison operato
 SU = "Qentem::StringUtils::"
 
 
+META["explanation"] += " " + 'Taken over unchanged from other modules because a seeded change to this property was reported by them (rules.common.shared): TS-value from C12; PR-rename from C13.'
+
 def norm_commutative(fn, nid):
     """normal form of a boolean/arith expression: operands of commutative operators sorted"""
     nid = fn.strip(nid)
@@ -48,7 +50,7 @@ def norm_commutative(fn, nid):
     return fn.text(nid)
 
 
-def run(ctx):
+def _run_own(ctx):
     m = ctx.pattern()
     rules = []
 
@@ -394,3 +396,12 @@ def run(ctx):
     from rules.common import rule_equal_lengths
     rules.append(rule_equal_lengths(ctx, m))
     return rules
+
+
+def run(ctx):
+    rules_ = list(_run_own(ctx) or [])
+    from rules.common import shared
+    have = set(r_.rid for r_ in rules_)
+    rules_ += [r_ for r_ in shared(ctx, 'C12', ['TS-value']) if r_.rid not in have]
+    rules_ += [r_ for r_ in shared(ctx, 'C13', ['PR-rename']) if r_.rid not in have]
+    return rules_
